@@ -28,6 +28,7 @@ from sim.tape import Tape
 PROP = 'C16'
 _P = {}
 POOL = []
+NPOOL = 10       # POOL[:NPOOL]: the entries workloads draw from; POOL[NPOOL:]: fillers (scale mode)
 GOLD = {}        # key -> dict(model, hash, results_json)
 _MEMO = {}
 _MEMO_ON = [True]
@@ -152,6 +153,14 @@ def prepare():
         POOL.append({'idx': idx, 'name': name, 'model': model, 'me': me, 'key': key,
                      'desc': DESCRIPTIONS[d], 'has_results': with_res, 'results_json': None,
                      'dataset': 'A' if idx in (0, 1, 2, 3, 6, 8, 9) else 'B'})
+    # fillers: twelve more models, each with its own small dataset (dataset numbers >= 10)
+    for j in range(12):
+        dsj = ds[ds['ID'] == 10 + j].reset_index(drop=True)
+        model = base.replace(dataset=dsj, name=f'fill{j}', description=f'filler {j}')
+        POOL.append({'idx': len(POOL), 'name': f'fill{j}', 'model': model,
+                     'me': ModelEntry.create(model), 'key': str(ModelHash(model)),
+                     'desc': f'filler {j}', 'has_results': False, 'results_json': None,
+                     'dataset': f'F{j}'})
     # install the parse memo (a pure function of the bytes the parser reads)
     import pharmpy.workflows.contexts.baseclass as ctxbase
     ctxbase.datetime = _DatetimeProxy
@@ -286,7 +295,9 @@ def _memo_parse_inner(path, missing_data_token=None):
 def config_for(i, tier='quick'):
     memo = (i % 10) != 9
     jumps = (i % 3) == 1
-    if i % 8 == 0:
+    if i % 40 == 20:
+        c = {'mode': 'scale', 'memo': memo, 'clock_jumps': False}
+    elif i % 8 == 0:
         c = {'mode': 'journal', 'memo': memo, 'clock_jumps': jumps}
         c['crashpoints'] = 'all' if tier == 'thorough' else 'sample'
     elif i % 8 == 4:
@@ -306,6 +317,8 @@ def scenarios(tier):
 def class_name(cfg):
     if cfg['mode'] == 'insitu':
         return f"mode=insitu,fault={cfg.get('fault')},memo={int(cfg.get('memo', True))}"
+    if cfg['mode'] == 'scale':
+        return 'mode=scale'
     return f"mode={cfg['mode']},crashpoints={cfg.get('crashpoints')},memo={int(cfg.get('memo', True))}"
 
 
@@ -314,12 +327,12 @@ def class_name(cfg):
 # --------------------------------------------------------------------------
 def gen_workload(tape):
     """<= 3 pool models (biased to share a dataset), <= 5 operations."""
-    first = tape.draw(len(POOL), 'pool.first')
+    first = tape.draw(NPOOL, 'pool.first')
     chosen = [first]
-    same = [e['idx'] for e in POOL if e['dataset'] == POOL[first]['dataset'] and e['idx'] != first]
-    other = [e['idx'] for e in POOL if e['idx'] != first]
+    same = [e['idx'] for e in POOL[:NPOOL] if e['dataset'] == POOL[first]['dataset'] and e['idx'] != first]
+    other = [e['idx'] for e in POOL[:NPOOL] if e['idx'] != first]
     nmod = 1 + tape.draw(3, 'nmodels')
-    twins = [e['idx'] for e in POOL if e['key'] == POOL[first]['key'] and e['idx'] != first]
+    twins = [e['idx'] for e in POOL[:NPOOL] if e['key'] == POOL[first]['key'] and e['idx'] != first]
     if twins and nmod > 1 and tape.draw(2, 'pool.twin'):
         chosen.append(twins[0])
     while len(chosen) < nmod:
@@ -1046,8 +1059,53 @@ def run_excpoints(cfg, tape, want_trace=False):
     return res
 
 
+def run_scale(cfg, tape, want_trace=False):
+    """Many datasets in one database (>= 10 stored copies): no faults; every acknowledged
+    entry must keep its own dataset whatever is stored afterwards."""
+    V = Verdicts()
+    _MEMO_ON[0] = bool(cfg.get('memo', True)) and not want_trace
+    root = fresh_root()
+    _CLOCK[0] = SimClock(None)
+    ref = Ref()
+    nfill = 9 + tape.draw(4, 'scale.nfill')
+    order = [NPOOL + j for j in tape.permutation(12, 'scale.order')[:nfill]]
+    extra = [tape.draw(NPOOL, 'scale.extra') for _ in range(2)]
+    seq = order[:]
+    for x in extra:
+        seq.insert(tape.draw(len(seq) + 1, 'scale.pos'), x)
+    ctx = quiet(_P['Ctx']('ctx', ref=root))
+    done = []
+    for idx in seq:
+        op = {'kind': 'store', 'model': idx}
+        if name_conflict(ref, op) or idx in done:
+            continue
+        try:
+            ctx.store_model_entry(POOL[idx]['me'])
+        except Exception as ex:
+            V.viol(f'fault-free-operation-failed/store/{type(ex).__name__}',
+                   f'store({POOL[idx]["name"]}) as dataset number {len(done) + 1} raised {ex!r}')
+            break
+        apply_ack(ref, op)
+        done.append(idx)
+    if not V.violations:
+        check_state(root, ref, None, V, f'after storing {len(done)} entries with {len(set(POOL[i]["dataset"] for i in done))} '
+                                        f'different datasets (no fault)', done, do_progress=False)
+    V.count('scale.entries', len(done))
+    h = hashlib.sha256(repr(seq).encode() + repr([v['signature'] for v in V.violations]).encode())
+    res = {'violations': V.violations, 'harness_error': None, 'digest': h.hexdigest(), 'steps': len(done),
+           'switches': 0, 'outcome': 'ok', 'stats': V.stats, 'nontrivial': len(done) >= 10,
+           'tape': list(tape.out), 'states': [], 'sim_seconds': 0.0}
+    if want_trace:
+        res['workload'] = {'models': [POOL[i]['name'] for i in seq], 'ops': [f'store({POOL[i]["name"]})' for i in seq]}
+        res['journal'] = []
+        res['crash_points'] = []
+    return res
+
+
 def run_one(cfg, tape: Tape, want_trace=False):
     prepare()
+    if cfg.get('mode') == 'scale':
+        return run_scale(cfg, tape, want_trace)
     if cfg.get('mode') == 'excpoint':
         return run_excpoints(cfg, tape, want_trace)
     if cfg.get('mode') == 'insitu':
